@@ -49,6 +49,7 @@
 #define GEN 64 /* sizeof(sqfs_inode_generic_t), asserted below */
 #define IDXBYTES (NIDX * 12 + NIDX * (NIDX + 1) / 2)
 #define C01_SIZES GEN, GEN + 4 * NBLK, GEN + TL + 1, GEN + 128
+#define C01_READ_SIZES 4 * NBLK, TL
 #include "c01_alloc.h"
 #include "c01_meta.h"
 #include "lib/sqfs/src/write_inode.c"
